@@ -170,6 +170,14 @@ def run_case(h, classes, K, edges, ledges, gorder, lorder_name, style, kind):
         res = outcome(parser.link_arguments, src, tgt, fn, apply_on="instantiate")
         if expect_cycle:
             h.check(res[0] == "exc" and res[1] == "ValueError", key + f":cycle@{a}>{b}", f"cycle-closing link was not rejected with ValueError: {res[:2]}", {"edges": ledges})
+            # the rejection must leave the parser usable: the links accepted so far still hold, nothing of the refused one remains
+            del LOG[:]
+            after = outcome(lambda: parser.instantiate_classes(parser.parse_args([])))
+            ok = after[0] == "ok"
+            if ok:
+                objs = {g: after[1][f"g{g}"] for g in range(K)}
+                ok = all(((getattr(objs[y], f"from_{x}") is objs[x]) if kind == "object" else (getattr(objs[y], f"from_{x}") == "fn(attr%d)" % x)) for x, y in added) and getattr(objs[b], f"from_{a}") is None
+            h.check(ok, f"links:after-refused-cycle:{style}:{kind}", f"after the refused link {a}>{b} the parser no longer works as before: {after[:3] if after[0] != 'ok' else 'wrong wiring'}", {"edges": ledges, "refused": (a, b)})
             h.nontrivial(key)
             return
         if res[0] != "ok":
